@@ -13,6 +13,12 @@ what the real decoders yield for a chunk under the current blob view, and every 
 reader level (VerifiableReader / reader, package fs/reader):
   r.prefetch <c> <g|b|f>                        -> ok | err             readAndCache of one chunk
   r.cache <c:st,...|-> cached=<c,...|->         -> ok | err [implausible:<c>]   Cache(); `cached` = observed
+  r.clone <c:st:k,...|-> cached=<c,...|->       -> ok | err [implausible:<c>]   Cache(WithReader(sr)): the
+                                                   walk goes over metadata.Reader.Clone(sr); k = which digest
+                                                   the clone hands over for the chunk: o = the one of the TOC
+                                                   parsed at open time, m = another one that matches the
+                                                   served bytes, x = another one that does not, n = none
+  r.clone.err                                   -> err                   Clone(sr) itself failed
   r.race <good|wrong> <c:st,...|-> cached=<..>  -> verify=<r> cache=<r> [implausible:<c>]
                                                    Cache() racing with VerifyTOC; linearisation rebuilt
                                                    from the observed cache contents
@@ -23,7 +29,8 @@ reader level (VerifiableReader / reader, package fs/reader):
   r.readfd <f>                                  -> ok clean | ok dirty | err
 layer level (layer / filesystem.Mount / store, packages fs/layer, fs):
   l.verify <good|wrong>   l.skip   l.mount <none|bad|good|wrong> <skip 0|1>   l.store <good|wrong>
-  l.prefetch <c> <st>   l.read <steps>   l.pass <f> <mem|file> <steps>   l.readfd <f>   l.evict
+  l.prefetch <c> <st>   l.cache ...   l.clone ...   l.read <steps>   l.pass <f> <mem|file> <steps>
+  l.readfd <f>   l.evict
 -/
 namespace SV.Driver.C01
 open SV.Driver SV.Verify
@@ -71,6 +78,21 @@ def parseItem? (s : String) : Option (Nat × Option Nat) :=
     some (c, r)
   | _ => none
 
+/-- item of a clone walk: chunk, served bytes, digest handed over by the clone. -/
+def parseCloneItem? (t : Toc Nat) (s : String) : Option (Nat × Option Nat × Option Nat) :=
+  match s.splitOn ":" with
+  | [c, st, k] => do
+    let c ← parseNat? c
+    let r ← parseReply? c st
+    let dg ← match k with
+      | "o" => some (t.dig c)
+      | "m" => some (some 0)
+      | "x" => some (some 1)
+      | "n" => some none
+      | _ => none
+    some (c, r, dg)
+  | _ => none
+
 def parseStep? (s : String) : Option (Step Nat) :=
   match s.splitOn "/" with
   | [main] => do
@@ -103,18 +125,22 @@ def okErr : Res Nat → String
   | _ => "ok"
 
 /-- `Cache()` over `items`, the observed set `cached` resolving what the errgroup cancelled. -/
-def cacheItems (s : S) (items : List (Nat × Option Nat)) (cached : List Nat) :
+def cacheItemsWith (s : S) (items : List (Nat × Option Nat × Option Nat)) (cached : List Nat) :
     S × Bool × Bool × Option Nat :=
-  items.foldl (fun (acc : S × Bool × Bool × Option Nat) (it : Nat × Option Nat) =>
+  items.foldl (fun (acc : S × Bool × Bool × Option Nat) (it : Nat × Option Nat × Option Nat) =>
     let (s, anyErr, skipped, bad) := acc
-    let (c, reply) := it
+    let (c, reply, dg) := it
     match cget s.cache (.chunk c) with
     | some _ => if cached.contains c then (s, anyErr, skipped, bad) else (s, anyErr, skipped, bad.or (some c))
     | none =>
-      match prefetch id s c reply with
+      match prefetchWith id s c reply dg with
       | (s', .err) => if cached.contains c then (s', anyErr, skipped, bad.or (some c)) else (s', true, skipped, bad)
       | (s', _) => if cached.contains c then (s', anyErr, skipped, bad) else (s, anyErr, true, bad))
     (s, false, false, none)
+
+def cacheItems (s : S) (items : List (Nat × Option Nat)) (cached : List Nat) :
+    S × Bool × Bool × Option Nat :=
+  cacheItemsWith s (items.map fun it => (it.1, it.2, s.toc.dig it.1)) cached
 
 def plaus (anyErr skipped : Bool) (bad : Option Nat) : String :=
   match bad with
@@ -153,12 +179,19 @@ def step (d : DSt) : List String → DSt × String
       | some r => setS d (prefetch id d.s c r) okErr
       | none => (d, "bad-op")
     | none => (d, "bad-op")
-  | ["r.cache", items, cached] =>
+  | ["r.cache", items, cached] | ["l.cache", items, cached] =>
     match parseList? items parseItem?, (stripPrefix? "cached=" cached).bind (parseList? · parseNat?) with
     | some items, some cached =>
       let (s', anyErr, skipped, bad) := cacheItems d.s items cached
       ({ d with s := s' }, (if anyErr then "err" else "ok") ++ plaus anyErr skipped bad)
     | _, _ => (d, "bad-op")
+  | ["r.clone", items, cached] | ["l.clone", items, cached] =>
+    match parseList? items (parseCloneItem? d.s.toc), (stripPrefix? "cached=" cached).bind (parseList? · parseNat?) with
+    | some items, some cached =>
+      let (s', anyErr, skipped, bad) := cacheItemsWith d.s items cached
+      ({ d with s := s' }, (if anyErr then "err" else "ok") ++ plaus anyErr skipped bad)
+    | _, _ => (d, "bad-op")
+  | ["r.clone.err"] | ["l.clone.err"] => (d, "err")
   | ["r.race", dg, items, cached] =>
     match parseDigest? dg, parseList? items parseItem?,
           (stripPrefix? "cached=" cached).bind (parseList? · parseNat?) with
